@@ -48,6 +48,7 @@ type FuncContract struct {
 	Pure       bool
 	Trusted    bool
 	Inline     bool
+	Iface      bool // contract of an interface method
 	Loops      map[int]*LoopSpec
 	Uses       []*Clause // lemma instances assumed at entry
 	Splits     []*SplitHint
@@ -99,7 +100,7 @@ type PkgContracts struct {
 }
 
 var ckeywords = map[string]bool{
-	"spec": true, "func": true, "lemma": true, "axiom": true, "prop": true, "mode": true, "requires": true,
+	"spec": true, "func": true, "iface": true, "lemma": true, "axiom": true, "prop": true, "mode": true, "requires": true,
 	"ensures": true, "modifies": true, "nopanic": true, "nooverflow": true, "pure": true,
 	"trusted": true, "inline": true, "loop": true, "use": true, "split": true, "tier": true,
 	"induct": true, "ih": true, "allocbound": true, "abstract": true, "ghost": true, "uninterp": true, "where": true, "import": true, "globalinv": true,
@@ -263,10 +264,16 @@ func loadContracts(path string) (*PkgContracts, error) {
 				return nil, fail(l, "duplicate spec %s", name)
 			}
 			pc.Specs[name] = sf
-		case "func":
+		case "func", "iface":
 			curL = nil
 			name := rest
 			fc := &FuncContract{Name: name, Mode: "int", Loops: map[int]*LoopSpec{}, File: path, Line: l.line}
+			if kw == "iface" {
+				// contract of an interface method: used at invoke sites; implementations are checked to refine it
+				fc.Iface = true
+				fc.Trusted = true
+				pc.Assumptions = append(pc.Assumptions, fmt.Sprintf("interface contract %s (%s:%d): implementations outside /repo's contracted set are assumed to satisfy it", name, path, l.line))
+			}
 			// forms: Name | (T).Name | (*T).Name | T.Name
 			n := strings.NewReplacer("(", "", ")", "", "*", "").Replace(name)
 			if i := strings.LastIndex(n, "."); i >= 0 {
